@@ -317,7 +317,11 @@ func (g *simGen) stmts() []*stmt {
 				e = cst(mval{})
 			}
 		}
-		return []*stmt{{k: sLocalClose, name: name, exps: []*expr{e}}}
+		out := []*stmt{{k: sLocalClose, name: name, exps: []*expr{e}}}
+		if e.k == eMkc && g.o.closeRun && !g.o.xpcall && g.t.Chance(1, 10) {
+			out = append(out, &stmt{k: sStrip, name: name})
+		}
+		return out
 	case 4:
 		return []*stmt{{k: sDo, body: g.block(1+g.t.Choose(3), g.t.Chance(1, 2))}}
 	case 5:
